@@ -323,6 +323,9 @@ def finish(mod, total, tier, seed, t0):
     #    ones are regression cases that must pass
     for e in known:
         if "case" not in e:
+            # no minimal case recorded: announced while the campaign still hits it
+            if e.get("status") == "open" and known_hit.get(e["id"]):
+                lines.append("KNOWN-FINDING: property=%s %s [%s]" % (pid, e["what"], e["id"]))
             continue
         res = pristine_replay(pid, e["case"]) if e.get("pristine", True) else None
         if e.get("status") == "open":
